@@ -13,7 +13,7 @@ P2 creation records (constraints, variables, objectives, NL items);
 P3 lazily exported link entries are flushed before the file is closed.
 """
 import re, hashlib
-from ..cfg import norm_facts, xrender, expand_locals, reach_calls, Facts, kids, strip, walk, cv, render, call_args, call_object, switch_sections
+from ..cfg import loop_shape, norm_facts, xrender, expand_locals, reach_calls, Facts, kids, strip, walk, cv, render, call_args, call_object, switch_sections
 from ..cfg import short_loc as _short_loc
 from ..facts import export, export_many, AnalysisBroken
 
@@ -1290,22 +1290,25 @@ def run(rep, ctx):
     p3.check(len(ext) == 1 and render(kids(ext[0])[0]).startswith("brl_.back()"), "extend-only-last", short_loc(add.loc),
              "only the last (not yet exported) range is extended in place")
     er = one("mp::pre::ValuePresolverImpl::ExportRemainingEntries")
-    fl = [n for n in er.walk() if n["k"] == "ForStmt"]
+    fl = [n for n in er.walk() if n["k"] in ("ForStmt", "WhileStmt")]
     ok = len(fl) == 2
     why = ""
     if ok:
         o, i_ = fl
-        ok = render(o["c"][2]).replace(" ", "") == "i_exported_<(int)brl_.size()" and render(o["c"][3]) == "++i_exported_"
-        ivd = kids(i_["c"][0])[0]
-        rng = [v for v in walk(o) if v["k"] == "VarDecl" and render(kids(v)[0]) == "brl_[i_exported_]"]
-        ok = ok and len(rng) == 1
+        so, si = loop_shape(er, o), loop_shape(er, i_)
+        sc_ = lambda t: t.replace(" ", "").replace("(int)", "").replace("(size_t)", "").replace("this->", "")
+        # outer: i_exported_ runs on (continuing from its stored value) while it is < brl_.size(), one step per range
+        ok = so is not None and so["stepped"] and so["dir"] == "up" and so["rel"] == "<" and so["name"] == "i_exported_" and \
+            sc_(render(so["bound"])) == "brl_.size()" and so["start"] is None
+        # inner: the entry index runs from ir_.beg_ to ir_.end_ of brl_[i_exported_], one ExportLinkEntry per entry
         if ok:
-            rn = rng[0]["name"]
-            ok = render(kids(ivd)[0]) == rn + ".ir_.beg_" and render(i_["c"][2]).replace(" ", "") in (
-                "%s!=%s.ir_.end_" % (ivd["name"], rn), "%s<%s.ir_.end_" % (ivd["name"], rn)) and render(i_["c"][3]) == "++" + ivd["name"]
+            ok = si is not None and si["stepped"] and si["dir"] == "up" and si["rel"] in ("!=", "<") and si["start"] is not None and \
+                sc_(xrender(er, si["start"], True)) == "brl_[i_exported_].ir_.beg_" and sc_(xrender(er, si["bound"], True)) == "brl_[i_exported_].ir_.end_"
+        if ok:
             ex = [c for c in walk(i_) if c["k"] == "CXXMemberCallExpr" and c.get("callee") == "mp::pre::ValuePresolverImpl::ExportLinkEntry"]
-            ok = ok and len(ex) == 1 and render(call_args(ex[0])[0]) == rn + ".b_" and strip(call_args(ex[0])[1]).get("declId") == ivd["declId"]
-            inner = {n["i"] for n in walk(i_["c"][4])}
+            ok = len(ex) == 1 and sc_(xrender(er, call_args(ex[0])[0], True)) == "brl_[i_exported_].b_" and strip(call_args(ex[0])[1]).get("declId") == si["var"]
+            body_ = [x for x in i_.get("c", []) if x is not None][-1]
+            inner = {n["i"] for n in walk(body_)}
             ok = ok and not [c for c in er.cfg.facts_at(ex[0]) if c[0] in inner]
     p3.check(ok, "export-loop", short_loc(er.loc), "every entry [beg_, end_) of every not yet exported range is exported once, "
              "and i_exported_ advances past it")
